@@ -23,29 +23,49 @@ func verifMergeNsxRules(t string, cnt int) []*nsxRule {
 
 func VerifMergeNSX() {
 	N, _ := strconv.Atoi(vf.Param("N", "2"))
-	vf.Assumption("NSX merge: Netspoc part with policy Netspoc-v1 (0..N rules; policy absent when it has no rule), raw part with a policy of the same or of another id (0..N rules); one group and one service per part")
+	vf.Assumption("NSX merge: Netspoc part with policy Netspoc-v1 (0..N rules; policy absent when it has no rule), raw part with up to two policy objects whose ids are solver-chosen among Netspoc-v1 / Netspoc-v2 (the same id may occur twice), 0..N rules each; one group and one service per part")
 	n := vf.Int("n", 0, N)
-	m := vf.Int("m", 0, N)
 	spoc := verifMergeNsxRules("r", n)
-	raw := verifMergeNsxRules("raw", m)
-	rawId := vf.FixString(vf.Pick("rawPolicy", []string{"Netspoc-v1", "Netspoc-v2"}))
 	c1 := &NsxConfig{Groups: []*nsxGroup{verifMkGroupFixed("Netspoc-g1")}, Services: []*nsxService{verifMkService("Netspoc-tcp_80", "80")}}
 	if n > 0 {
 		c1.Policies = []*nsxPolicy{{Id: "Netspoc-v1", Rules: spoc}}
 	}
 	c2 := &NsxConfig{Groups: []*nsxGroup{verifMkGroupFixed("Netspoc-g2")}, Services: []*nsxService{verifMkService("Netspoc-tcp_81", "81")}}
-	if m > 0 {
-		c2.Policies = []*nsxPolicy{{Id: rawId, Rules: raw}}
+	type part struct {
+		id    string
+		rules []*nsxRule
+	}
+	var raw []part
+	total := n
+	for k := 0; k < 2; k++ {
+		t := "raw" + strconv.Itoa(k)
+		m := vf.Int(t+".rules", 0, N)
+		if m == 0 {
+			continue
+		}
+		id := vf.FixString(vf.Pick(t+".policy", []string{"Netspoc-v1", "Netspoc-v2"}))
+		rules := verifMergeNsxRules(t+"r", m)
+		raw = append(raw, part{id, rules})
+		c2.Policies = append(c2.Policies, &nsxPolicy{Id: id, Rules: rules})
+		total += m
+	}
+	if len(raw) == 2 && raw[0].id == raw[1].id {
+		vf.Cover("raw part with two policy objects of the same id")
 	}
 	res := c1.MergeSpoc(c2).(*NsxConfig)
 	vf.Assert(len(res.Groups) == 2 && len(res.Services) == 2, "C18: NSX: groups or services of a part are missing after the merge")
 	var got []*nsxRule
 	byPolicy := map[string][]*nsxRule{}
+	ids := map[string]int{}
 	for _, p := range res.Policies {
 		got = append(got, p.Rules...)
 		byPolicy[p.Id] = append(byPolicy[p.Id], p.Rules...)
+		ids[p.Id]++
 	}
-	vf.Assert(len(got) == n+m, "C18: NSX: a rule of one part is missing or duplicated after the merge")
+	vf.Assert(len(got) == total, "C18: NSX: a rule of one part is missing or duplicated after the merge")
+	for id, cnt := range ids {
+		vf.Assert(cnt == 1, "C18: NSX: policies with the same id are not joined ("+id+")")
+	}
 	check := func(part []*nsxRule, id string) {
 		l := byPolicy[id]
 		pos := -1
@@ -62,13 +82,14 @@ func VerifMergeNSX() {
 		}
 	}
 	check(spoc, "Netspoc-v1")
-	check(raw, rawId)
-	if n > 0 && m > 0 && rawId == "Netspoc-v1" {
-		vf.Cover("rules joined into one policy")
-		vf.Assert(len(res.Policies) == 1, "C18: NSX: policies with the same id are not joined")
-	}
-	if n > 0 && m > 0 && rawId != "Netspoc-v1" {
-		vf.Cover("policy of raw part added")
+	for _, p := range raw {
+		check(p.rules, p.id)
+		if n > 0 && p.id == "Netspoc-v1" {
+			vf.Cover("rules joined into one policy")
+		}
+		if p.id != "Netspoc-v1" {
+			vf.Cover("policy of raw part added")
+		}
 	}
 }
 
